@@ -190,8 +190,54 @@ SegRules(t, sa, inv, lcp, minLen, maxLen, cbs, pairwise) ==
 (*            (InvertSA), lcps (LCP called with sa/sainv supplied or nil)  *)
 (*  suffixcfg the same through the verif-tagged SortCfg hook with other    *)
 (*            introsort thresholds (informational: DRIFT.* rules)          *)
+(*  suffixstages  t, sa and the arrays s4, s5, s6 the sort driver holds     *)
+(*            between its stages (verif hook VerifStage), compared with    *)
+(*            the stage model DivSufSort.tla (informational DRIFT rules)     *)
 (*  segments  t, sa, lcp, minlen, maxlen, cbs (callbacks in call order)    *)
 (***************************************************************************)
+(* ---- the stages of the sort driver against the stage model ---- *)
+DSS == INSTANCE DivSufSort
+RECURSIVE MaxByte(_, _, _)
+MaxByte(t, i, acc) == IF i > Len(t) THEN acc ELSE MaxByte(t, i + 1, IF t[i] > acc THEN t[i] ELSE acc)
+
+StageRules(e) ==
+  LET t  == e.t
+      n  == Len(t)
+      sg == MaxByte(t, 1, 0) + 1
+  IN IF n < 3 \/ n > 40 \/ sg > 4 THEN {}
+     ELSE LET r   == TLCEval(DSS!Run(t, sg, "code"))
+              m   == r.m
+              pos == r.cl.pos                        \* B* positions in text order, pos[l + 1] for index l
+              \* the B* substring of index l: up to and including the first two bytes of the next one
+              Sub(l) == IF l = m - 1 THEN SubSeq(t, pos[m] + 1, n) ELSE SubSeq(t, pos[l + 1] + 1, pos[l + 2] + 2)
+              Leq(u, v) == LET RECURSIVE le(_)
+                               le(k) == IF k > Len(u) THEN TRUE ELSE IF k > Len(v) THEN FALSE
+                                        ELSE IF u[k] # v[k] THEN u[k] < v[k] ELSE le(k + 1)
+                           IN le(1)
+              Dec(x) == IF x < 0 THEN -x - 1 ELSE x  \* ^x marks "equal to the substring in front"
+              SubRank(l) == Cardinality({ k \in 0..m - 1 : Leq(Sub(k), Sub(l)) }) - 1
+              SufRank(l) == Cardinality({ k \in 0..m - 1 : DSS!SufLess(t, pos[k + 1], pos[l + 1]) })
+          IN {
+       (* stage contracts of the two sorting engines (ssort, trSort) *)
+       <<"DRIFT09.stage1_substrings",
+         (e.m = m /\ m > 0) =>
+           /\ Len(e.s1) = m
+           /\ { Dec(e.s1[i]) : i \in 1..m } = 0..m - 1
+           /\ e.s1[1] >= 0
+           /\ \A i \in 2..m : /\ Leq(Sub(Dec(e.s1[i - 1])), Sub(Dec(e.s1[i])))
+                               /\ (e.s1[i] < 0 <=> Sub(Dec(e.s1[i - 1])) = Sub(Dec(e.s1[i])))>>,
+       <<"DRIFT09.stage2_ranks",
+         (e.m = m /\ m > 0) => (Len(e.s2) = 2 * m /\ \A l \in 0..m - 1 : e.s2[m + l + 1] = SubRank(l))>>,
+       <<"DRIFT09.stage3_bstar_order",
+         (e.m = m /\ m > 0) => (Len(e.s3) = 2 * m /\ \A l \in 0..m - 1 : e.s3[m + l + 1] = SufRank(l))>>,
+       <<"DRIFT09.stage_m", e.m = r.m>>,
+       <<"DRIFT09.stage4_flags", e.m = r.m => \A x \in 0..r.m - 1 : e.s4[x + 1] = r.sa4[x]>>,
+       <<"DRIFT09.stage5_copy", (r.m > 0 /\ Len(e.s5) = n) => \A x \in r.cp.live : e.s5[x + 1] = r.cp.sa[x]>>,
+       <<"DRIFT09.stage6_induceB",
+         (r.m > 0 /\ Len(e.s6) = n) => \A x \in 0..n - 1 : r.ib.sa[x] # DSS!G => e.s6[x + 1] = r.ib.sa[x]>>,
+       <<"DRIFT09.stage7_result", Len(e.sa) = n /\ \A x \in 0..n - 1 : e.sa[x + 1] = r.ia.sa[x]>>
+     }
+
 SortRules(e, prefix) ==
   LET t == e.t
       def == N(t) <= 48
@@ -213,6 +259,7 @@ SuffixRules(e) ==
              \A k \in 1..Len(e.lcps) : IsLCP(e.t, e.sa, e.lcps[k])>>
       }
     [] e.op = "suffixcfg" -> SortRules(e, "DRIFT09")
+    [] e.op = "suffixstages" -> StageRules(e)
     [] e.op = "segments" ->
       LET pre == IsSAlinear(e.t, e.sa, e.sainv) /\ IsLCP(e.t, e.sa, e.lcp) IN
       IF e.minlen > e.maxlen \/ e.minlen < 0 THEN {}        \* outside the quantifier of C10 (only: no panic)
@@ -224,7 +271,7 @@ SuffixRules(e) ==
                   <<"C10.lcp_untouched", e.lcp_after = e.lcp>> }
     [] e.op = "panic" ->
       IF e.in = "segments" THEN { <<"C10.no_panic", FALSE>> }
-      ELSE IF e.in = "suffixcfg" THEN { <<"DRIFT09.no_panic", FALSE>> }
+      ELSE IF e.in \in {"suffixcfg", "suffixstages"} THEN { <<"DRIFT09.no_panic", FALSE>> }
       ELSE { <<"C09.no_panic", FALSE>> }
     [] e.op = "timeout" ->
       IF e.in = "segments" THEN { <<"C10.no_hang", FALSE>> } ELSE { <<"C09.no_hang", FALSE>> }
